@@ -24,10 +24,42 @@ def teardown(ctx):
         ctx.harness_error(e)
 
 
-def _scn(rng):
+class _Scn2D:
+    """2D Euler problem with the attributes the groups use (explicit integrators only: see DESIGN 6/D15)"""
+    mname, rname, is2d = "euler2d", "2d", True
+
+    def __init__(self, rng):
+        from . import c15
+        self.spec = c15.random_spec(rng, nmax=4)
+        self.spec.prim[1] = self.spec.prim[1] * 0.5
+        self.mesh, self.model, self.disc, self.field = self.spec.build()
+        self.rname = "extrapol2d1" if self.spec.k is None else "extrapol2dk"
+
+    def fresh_disc(self):
+        return self.spec.build()[2]
+
+    def other_field(self, rng):
+        n = self.mesh.ncell
+        rho, V, p = self.spec.prim
+        prim = [rho * rng.uniform(0.8, 1.2, n), V * rng.uniform(0.5, 1.0, (2, n)), p * rng.uniform(0.8, 1.2, n)]
+        return ffield.fdata(self.model, self.mesh, self.model.prim2cons(prim))
+
+    def desc(self):
+        return self.spec.desc()
+
+
+def _scn(rng, implicit=False):
+    if not implicit and rng.random() < 0.15:
+        return _Scn2D(rng)
     mname = str(rng.choice(MODELS))
     s = gen.scenario1d(rng, mname=mname, bc=str(rng.choice(["per", "per", "sym", "open"])), nmin=3, nmax=10, fluxes=gen.UPWIND_FLUXES, mach_max=1.0, ratio=3.0,
                        recons=["extrapol1", "extrapol2", "extrapol3", "muscl_minmod", "muscl_vanalbada", "extrapolk"])
+    s.is2d = False
+    s.fresh_disc = lambda: md.fvm(s.model, s.mesh, s.num, numflux=s.flux, bcL=s.bcL, bcR=s.bcR)
+    def other_field(rng):
+        other, _ = gen.prim_for(s.mname, s.model, rng, s.mesh.ncell, None, mach_max=1.0, ratio=3.0)
+        return gen.fdata_prim(s.model, s.mesh, other)
+    s.other_field = other_field
     return s
 
 
@@ -90,9 +122,12 @@ def _check_monitor_records(ctx, s, log, mons, before_len, iname):
             f = ffield.fdata(s.model, s.mesh, st["data"], t=st["time"])
             with probes.quiet():
                 if typ == "residual":
-                    disc = md.fvm(s.model, s.mesh, s.num, numflux=s.flux, bcL=s.bcL, bcR=s.bcR)
+                    disc = s.fresh_disc()
                     r = disc.rhs(f)
-                    ref = np.sqrt(np.mean([np.sum(vol * rq ** 2) / np.sum(vol) for rq in r]))
+                    if s.is2d:      # the norm of a vector-valued residual is the code's own definition (not part of the property)
+                        ref = disc.all_L2average(r)
+                    else:
+                        ref = np.sqrt(np.mean([np.sum(vol * rq ** 2) / np.sum(vol) for rq in r]))
                 else:
                     ref = np.sum(vol * f.phydata(par["data"])) / np.sum(vol)
             if not np.isfinite(ref):
@@ -105,8 +140,8 @@ def _check_monitor_records(ctx, s, log, mons, before_len, iname):
 def repeat(ctx, rng, idx):
     """solve; disturb the solver object (unrelated solve with saves/monitors); solve again; fresh object"""
     iname = gen.ALL_INTEG[idx % len(gen.ALL_INTEG)]
-    s = _scn(rng)
     implicit = iname in gen.IMPLICIT
+    s = _scn(rng, implicit)
     cfl = float(rng.uniform(0.1, 0.4) if not implicit else rng.uniform(0.2, 1.5))
     N = int(rng.integers(1, 9))
     make = lambda: gen.integ(iname)(s.mesh, s.disc)
@@ -120,8 +155,7 @@ def repeat(ctx, rng, idx):
     trajB, _, _ = _traj(S.solve, s.field, cfl, stop={"maxit": N})
     ctx.true("repeat-same-object", _same(A, trajB[-1]), "repeat/same-object/%s" % ("gear" if iname == "gear" else "implicit" if implicit else "explicit"), _diff(A, trajB[-1]), cls="repeat-same-object")
     # (c) unrelated solve on the same object (other field, save times, monitors), then again
-    other, _ = gen.prim_for(s.mname, s.model, rng, s.mesh.ncell, None, mach_max=1.0, ratio=3.0)
-    fo = gen.fdata_prim(s.model, s.mesh, other)
+    fo = s.other_field(rng)
     mons, mdesc = _monitors(rng, s.model)
     dto = float(np.min(s.disc.calc_timestep(fo, cfl)))
     if np.isfinite(dto):
@@ -151,8 +185,8 @@ def repeat(ctx, rng, idx):
 def saves_and_monitors(ctx, rng, idx):
     """extra save times / monitors must not change the trajectory (compared state by state, bitwise)"""
     iname = gen.ALL_INTEG[idx % len(gen.ALL_INTEG)]
-    s = _scn(rng)
     implicit = iname in gen.IMPLICIT
+    s = _scn(rng, implicit)
     cfl = float(rng.uniform(0.1, 0.4) if not implicit else rng.uniform(0.2, 1.5))
     N = int(rng.integers(2, 9))
     make = lambda: gen.integ(iname)(s.mesh, s.disc)
@@ -202,8 +236,8 @@ def saves_and_monitors(ctx, rng, idx):
 def restart(ctx, rng, idx):
     """solve(N) + restart(M) == solve(N+M): state, time, cumulative iteration count, tags seen by monitors"""
     iname = gen.ALL_INTEG[idx % len(gen.ALL_INTEG)]
-    s = _scn(rng)
     implicit = iname in gen.IMPLICIT
+    s = _scn(rng, implicit)
     cfl = float(rng.uniform(0.1, 0.4) if not implicit else rng.uniform(0.2, 1.5))
     N, M = int(rng.integers(1, 8)), int(rng.integers(1, 8))
     make = lambda: gen.integ(iname)(s.mesh, s.disc)
